@@ -541,6 +541,11 @@ func (s *BaseNodeService) reinitDKG(message storage.Message) error {
 		return fmt.Errorf("failed to umarshal request:  %w", err)
 	}
 
+	// no round can be created under a blank identifier: refuse before anything is written
+	if strings.TrimSpace(req.DKGID) == "" {
+		return errors.New("reinit message names no round: empty {dkg_id}")
+	}
+
 	roundExist, existErr := s.fsmService.IsExist(req.DKGID)
 	if existErr != nil {
 		return existErr
